@@ -6,6 +6,7 @@ whole space – injectivity of the collection id (all pairs, by grouping ids) pl
 coordinates.
 """
 import io
+import os
 import json
 import sys
 
@@ -149,11 +150,14 @@ class C13(InputProp):
             pairs.append((((art("T"),), (None, v1, None)), ((art("T"),), (None, v2, None))))        # subtitle
             pairs.append((((art("T"),), (None, None, v1)), ((art("T"),), (None, None, v2))))        # editor
         pairfam = Items(pairs, name="pair")
+        # the same request identified by other interpreter processes (other hash seeds: set/dict iteration order differs there)
+        procs = Items([((), (None, None, None)), ((("A", "T", None, None),), (None, None, None)), ((("A", "T", "1", "d"), ("C", "c", (("A", "U", None, None),))), ("t", "s", "e")),
+                       ((("A", "Ä b", None, None), ("A", "T", "7", None)), (None, None, ("lic", "ed")))], name="other-processes")
         if tier == "quick":
-            self.space = Concat(small, pairfam, name="mb")
+            self.space = Concat(small, pairfam, procs, name="mb")
         else:
             big = Product(Seqs(ITEMS, 3, minlen=3), [(None, None, None), (None, None, ("lic", "ed"))], name="three-items")
-            self.space = Concat(small, big, pairfam, name="mb")
+            self.space = Concat(small, big, pairfam, procs, name="mb")
 
     def with_nulls(self, x):
         if isinstance(x, list):
@@ -179,10 +183,40 @@ class C13(InputProp):
         finally:
             sys.stdout = old
 
+    CHILD = ("import sys, json, io; p = json.load(sys.stdin); real = sys.stdout; sys.stdout = io.StringIO(); "
+             "from mwlib.core import nserve, serve; from mwlib.utils import myjson; "
+             "out = {'nserve': nserve.make_collection_id(p), 'serve': serve.make_collection_id(p), 'dump': myjson.loads(p['metabook']).dumps()}; "
+             "sys.stdout = real; print(json.dumps(out))")
+
+    def run_procs(self, spec):
+        import subprocess
+        src = os.path.dirname(os.path.dirname(os.path.dirname(os.path.abspath(self.nserve.__file__))))
+        mb = build(spec)
+        params = dict(COORDS, metabook=mb.dumps())
+        here = {"nserve": self.cid(params, "nserve"), "serve": self.cid(params, "serve"), "dump": self.myjson.loads(params["metabook"]).dumps()}
+        viol = []
+        seen = set()
+        for seed in ("1", "2", "3", "4", "5", "6"):
+            env = dict(os.environ, PYTHONHASHSEED=seed, PYTHONPATH=src, VERIF_NO_REEXEC="1")
+            r = subprocess.run([sys.executable, "-W", "ignore", "-c", self.CHILD], input=json.dumps(params), capture_output=True, text=True, env=env, timeout=120)
+            try:
+                there = json.loads(r.stdout.strip().splitlines()[-1])
+            except Exception:
+                viol.append({"sig": "other-process-failed", "msg": "child interpreter (hash seed %s) gave %r %r" % (seed, r.stdout[-200:], r.stderr[-300:])})
+                break
+            for k in ("nserve", "serve", "dump"):
+                seen.add((k, there[k]))
+                if there[k] != here[k] and not any(v["sig"].endswith(k) for v in viol):
+                    viol.append({"sig": "differs-between-processes:" + k, "msg": "%s of the same request is %r in an interpreter with hash seed %s and %r here" % (
+                        "collection id (%s)" % k if k != "dump" else "dump", there[k][:80], seed, here[k][:80])})
+        return {"key": ("procs", here["nserve"]), "steps": 6, "viol": viol, "counters": {"child_interpreters": 6}}
+
     def run_case(self, case):
         fam, spec = case
         if fam == "pair":
             return self.run_pair(spec)
+        if fam == "other-processes":
+            return self.run_procs(spec)
         viol = []
         mb = build(spec)
         p0 = plain(mb)
